@@ -53,6 +53,14 @@ def run_repro(scn):
         f["cfg"]["algo"] = ["naive", "priority", "overbook"][k % 3]
         f["cfg"]["over"] = f["cfg"]["algo"] == "overbook"
         run_digest(f, {"uuid_seed": scn["u1"] + 17 + k, "container_offset": 500 + k})
+    if scn.get("fillers", 1):
+        # an earlier simulation configured the documented way: take the defaults, change what differs, run
+        import eudoxia.simulator as simmod
+        p = simmod.get_param_defaults()
+        p.update({"duration": 2.0, "ticks_per_second": 5, "scheduler_algo": "naive", "num_pools": 1, "num_pipelines": 9,
+                  "num_operators": 2, "waiting_seconds_mean": 0.4, "random_seed": 777, "cpu_io_ratio": 0.9,
+                  "cpus_per_pool": 3, "ram_gb_per_pool": 7})
+        simmod.run_simulator(p)
     d2, s2, out2, rec2 = run_digest(scn, {"uuid_seed": scn["u2"], "container_offset": scn.get("off2", 7000)}, internal)
     res = {"violation": None, "discard": None, "faults": {"uuid_stream_changed": 1, "container_numbers_shifted": 1,
                                                            "preceding_simulations": scn.get("fillers", 1)},
@@ -113,6 +121,10 @@ def gen_repro(r, tier):
         scn = sysgen.gen(r, None, "C07", tier)
     if scn["cfg"]["algo"] == "priority-pool":
         scn["cfg"]["multi"] = True
+    if "pipes" not in scn:
+        # leave some workload parameters to the package defaults, as a partial params file would
+        for key in r.sample(["num_pipelines", "num_operators", "cpu_io_ratio", "random_seed"], r.randint(0, 2)):
+            scn["cfg"].pop(key, None)
     scn["u1"] = r.randint(1, 10 ** 9)
     scn["u2"] = r.randint(1, 10 ** 9)
     scn["off2"] = r.choice([2, 10, 99, 1000, 123456])
